@@ -115,6 +115,7 @@ def make_sim(case):
     if hasattr(sim, "coalesce"):
         sim.coalesce = list(case.get("coalesce", []))
         sim.splits = [tuple(x) for x in case.get("splits", [])]
+        sim.tx_errors = list(case.get("sci_tx_errors", [])) if drv == "sci" else []
     return sim
 
 
